@@ -1680,6 +1680,11 @@ def run(ctx):
         "scale) + 1 (documented construction), judged exactly; where that quotient is an exact integer and the lattice unit is not a power "
         "of two, one point fewer is accepted too (the quotient of two rounded floats may fall just below the integer); the first point is "
         "the centre or one pixel scale away from it (remove_projected_centre)",
+        "native-stored input Grid2D objects (grid.native, store_native=True) and structure-valued user functions go through to_array / to_grid "
+        "/ to_vector_yx only (project_grid, transform and the radial minimum were not tried on native-stored grids in this round); a native-stored "
+        "grid is evaluated at every native entry and judged at the unmasked ones",
+        "re-entrant user functions call the same and one other decorated method of the same object on a second grid (2 pixels / points) before "
+        "returning their own values; inner results are judged as records of their own",
         "configuration: the radial minimum of a profile class is read from the configuration in force when the relocating call is made; the "
         "harness pushes its three configuration directories with autoconf and restores the first one after every history",
         "the DIRECTION of a projected line is pinned to the documented construction (+x half-line rotated clockwise by the profile's "
